@@ -90,6 +90,8 @@ structure Level where
   name : String
   p : Parser
   src : Sources
+  onArgv : Bool := true     -- the subcommand is named on the command line (else: by the parent's subcommand variable alone)
+  envSub : Bool := false    -- this parser's subcommand variable (PREFIX_SUBCOMMAND) is set and names the NEXT level of the path
 deriving Inhabited
 
 /-- `get_env_var(parser)` without an action: what `add_subcommands` stores as the action's `env_prefix` -/
@@ -231,20 +233,46 @@ def itemWfT (L : Level) (below : List Level) : Item → Bool
   | .cfg k t => isDest L.p k && treeOk L.p (ownPart (nextName below) (expandT L below t))
   | it => itemWf L.p it
 
+/-- THE VARIABLE THAT NAMES THE SUBCOMMAND, as a source (`_load_env_vars`, second loop): the named sub-parser's
+    `parse_env(env=env, defaults=False)` — what the ENVIRONMENT alone gives for it, its own named subcommand included —
+    is stored under the subcommand's name in the parent's environment layer; head of the list = the named level -/
+def envSection (c : Call) : List Level → KV
+  | [] => []
+  | L :: rest =>
+    let own := defaultsAndEnvironC L.p L.src { defaults := false, envArg := some true, environ := c.environ }
+    match rest with
+    | [] => own
+    | L' :: _ => if L.envSub then setK [nameKey L'.name] (.ns (envSection c rest)) own else own
+
+/-- the section the level's own base holds for the next level: from its environment layer, when it reads the environment and
+    its subcommand variable names that level (a variable that names another subcommand leaves a section that
+    `get_subcommands` deletes once the command line has chosen) -/
+def envPending (c : Call) (L : Level) (below : List Level) : KV :=
+  if envRead L.p c.envArg && L.envSub then envSection c below else []
+
 /-- a level's own `parse_args(arg_strings, namespace=inc, env=, defaults=)`: `cfg = merge_config(namespace, cfg)` over its base,
     then its segment of the command line; returns (own keys, section for the next level) -/
 def ownParseT (c : Call) (L : Level) (below : List Level) (inc : KV) : KV × KV :=
   L.src.argv.foldl (argvStepT L below)
-    (mergeConfig L.p (ownPart (nextName below) inc) (defaultsAndEnvironC L.p L.src c), sectionPart (nextName below) inc)
+    (mergeConfig L.p (ownPart (nextName below) inc) (defaultsAndEnvironC L.p L.src c),
+     update (sectionPart (nextName below) inc) (envPending c L below))
 
 def finalLevelT (c : Call) (ancEnv : List Bool) (L : Level) (below : List Level) (inc : KV) : KV :=
   ancEnv.foldl (handleStep L c) (ownParseT c L below inc).1
+
+/-- a level that is NOT named on the command line (its parent's subcommand variable chose it): no `parse_args` of its own — the
+    section its parent holds for it goes over `parse_env` / the defaults in the `handle_subcommands` of every enclosing parser -/
+def finalLevelE (c : Call) (ancEnv : List Bool) (L : Level) (below : List Level) (inc : KV) : KV :=
+  ancEnv.foldl (handleStep L c) (ownPart (nextName below) inc)
 
 /-- `root.parse_args` along the path, sections included -/
 def parseLevelsT (c : Call) : List Bool → KV → List Level → List KV
   | _, _, [] => []
   | anc, inc, L :: rest =>
-    finalLevelT c anc L rest inc :: parseLevelsT c (envRead L.p c.envArg :: anc) (ownParseT c L rest inc).2 rest
+    if L.onArgv then
+      finalLevelT c anc L rest inc :: parseLevelsT c (envRead L.p c.envArg :: anc) (ownParseT c L rest inc).2 rest
+    else
+      finalLevelE c anc L rest inc :: parseLevelsT c anc (sectionPart (nextName rest) inc) rest
 
 /-- `root.parse_object(tree)` / `parse_string` on a tree: the root merges the content over its base; `handle_subcommands` then
     merges every section of the path over the sub-parser's `parse_env` / defaults — by the ROOT's environment setting -/
